@@ -1232,7 +1232,11 @@ func (p *PubSub) handleRemoveTopic(req *rmTopicReq) {
 		return
 	}
 
-	if len(topic.evtHandlers) == 0 &&
+	topic.evtHandlerMux.RLock()
+	numHandlers := len(topic.evtHandlers)
+	topic.evtHandlerMux.RUnlock()
+
+	if numHandlers == 0 &&
 		len(p.mySubs[req.topic.topic]) == 0 &&
 		p.myRelays[req.topic.topic] == 0 {
 		delete(p.myTopics, topic.topic)
